@@ -430,6 +430,7 @@ var realPayloads = map[string]string{
 
 func main() {
 	r := vf.Start("C17", "exploration")
+	finishHook = r.Finish // after several abandoned (hung) calls the run ends with what it has
 	r.Watchdog(90 * time.Minute)
 	m := &mon{r: r, finds: map[string]*finding{}}
 	if r.Replay == "" { // witness files of earlier runs would be mistaken for findings of this one
